@@ -4,6 +4,9 @@ import (
 	"fmt"
 	"os"
 	"sync/atomic"
+	"time"
+
+	"github.com/evanw/esbuild/pkg/api"
 )
 
 func init() { registry["GEN"] = debugGen }
@@ -81,5 +84,45 @@ func debugFeat(r *Run) {
 		}
 	}
 	fmt.Printf("feat cases=%d bad=%d\n", len(cases), bad)
+	os.Exit(0)
+}
+
+func init() { registry["C20DBG"] = c20dbg }
+
+func c20dbg(r *Run) {
+	bad := 0
+	for i := 0; i < 300; i++ {
+		var endT, dispT int64
+		body := "export const a = 1"
+		plugin := api.Plugin{Name: "p", Setup: func(b api.PluginBuild) {
+			b.OnResolve(api.OnResolveOptions{Filter: "^virtual:"}, func(a api.OnResolveArgs) (api.OnResolveResult, error) {
+				return api.OnResolveResult{Path: a.Path, Namespace: "s"}, nil
+			})
+			b.OnLoad(api.OnLoadOptions{Filter: ".*", Namespace: "s"}, func(a api.OnLoadArgs) (api.OnLoadResult, error) {
+				time.Sleep(3 * time.Millisecond)
+				return api.OnLoadResult{Contents: &body}, nil
+			})
+			b.OnEnd(func(res *api.BuildResult) (api.OnEndResult, error) {
+				time.Sleep(time.Millisecond)
+				atomic.StoreInt64(&endT, time.Now().UnixNano())
+				return api.OnEndResult{}, nil
+			})
+		}}
+		ctx, _ := api.Context(api.BuildOptions{EntryPoints: []string{"virtual:e"}, Bundle: true, Write: false, Plugins: []api.Plugin{plugin}, LogLevel: api.LogLevelSilent})
+		done := make(chan struct{})
+		go func() { ctx.Rebuild(); close(done) }()
+		time.Sleep(time.Duration(i%5) * 500 * time.Microsecond)
+		go ctx.Cancel()
+		ctx.Dispose()
+		atomic.StoreInt64(&dispT, time.Now().UnixNano())
+		<-done
+		time.Sleep(3 * time.Millisecond)
+		e := atomic.LoadInt64(&endT)
+		if e != 0 && e > dispT {
+			bad++
+			fmt.Printf("iteration %d: Dispose returned %d us before the build's on-end callback finished\n", i, (e-dispT)/1000)
+		}
+	}
+	fmt.Println("bad", bad)
 	os.Exit(0)
 }
